@@ -1,4 +1,912 @@
-(* C42 — proofs about Model/Future.v (under construction) *)
+(* C42 — proofs about Model/Future.v.
+   Everything is proved for every schedule of [tick]s (Base.Conc.run over threads whose actions
+   are all ticks of arbitrary goroutines): one case analysis per frame kind, no induction over
+   interleavings. *)
 From Coq Require Import List NArith Bool Arith Lia.
 From Verif Require Import Base.Conc Model.Future.
 Import ListNotations.
+
+(* ---------- lists: upd / nth_error ---------- *)
+
+Lemma nth_error_upd_same {A} (l : list A) i x y :
+  nth_error l i = Some y -> nth_error (upd l i x) i = Some x.
+Proof.
+  revert i. induction l as [|a l IH]; intros [|i] H; simpl in *; try discriminate; auto.
+Qed.
+
+Lemma nth_error_upd_other {A} (l : list A) i j x :
+  i <> j -> nth_error (upd l i x) j = nth_error l j.
+Proof.
+  revert i j. induction l as [|a l IH]; intros [|i] [|j] H; simpl; auto; try congruence.
+Qed.
+
+Lemma upd_length {A} (l : list A) i x : length (upd l i x) = length l.
+Proof. revert i. induction l as [|a l IH]; intros [|i]; simpl; auto. Qed.
+
+(* additive measures over all frames of all stacks *)
+Definition sumf {A} (w : A -> nat) (l : list A) : nat := fold_right (fun a n => w a + n) 0 l.
+
+Lemma sumf_app {A} (w : A -> nat) l1 l2 : sumf w (l1 ++ l2) = sumf w l1 + sumf w l2.
+Proof. induction l1; simpl; lia. Qed.
+
+Lemma sumf_concat_upd {A} (w : A -> nat) (ls : list (list A)) t old new :
+  nth_error ls t = Some old ->
+  sumf w (concat (upd ls t new)) + sumf w old = sumf w (concat ls) + sumf w new.
+Proof.
+  revert t. induction ls as [|a ls IH]; intros [|t] H; simpl in *; try discriminate.
+  - inversion H; subst. rewrite !sumf_app. lia.
+  - rewrite !sumf_app. specialize (IH _ H). lia.
+Qed.
+
+Lemma in_concat_upd {A} (ls : list (list A)) t old new x :
+  nth_error ls t = Some old ->
+  In x (concat (upd ls t new)) -> In x new \/ In x (concat ls).
+Proof.
+  revert t. induction ls as [|a ls IH]; intros [|t] H Hin; simpl in *; try discriminate.
+  - apply in_app_or in Hin. destruct Hin; auto. right. apply in_or_app. auto.
+  - apply in_app_or in Hin. destruct Hin as [Hin|Hin].
+    + right. apply in_or_app. auto.
+    + destruct (IH _ H Hin); auto. right. apply in_or_app. auto.
+Qed.
+
+Lemma in_concat_nth {A} (ls : list (list A)) t l x :
+  nth_error ls t = Some l -> In x l -> In x (concat ls).
+Proof.
+  intros H Hin. apply in_concat. exists l. split; auto. eapply nth_error_In; eauto.
+Qed.
+
+(* ---------- reading the state ---------- *)
+
+Notation val := value_of.
+Definition cbs_of (s : state) (f : fid) : list cb :=
+  match nth_error (heap s) f with Some fu => cbs fu | None => [] end.
+Definition frames (s : state) : list frame := concat (stacks s).
+
+(* What one tick can do, as a relation (each constructor = one branch of [tick]). *)
+Inductive step_kind (t : nat) (s : state) : state -> list event -> Prop :=
+| SIdle : step_kind t s s []
+| SAcceptRun f k v rest fu :
+    nth_error (stacks s) t = Some (FAccept f k :: rest) ->
+    nth_error (heap s) f = Some fu -> locked fu = false -> value fu = Some v ->
+    step_kind t s (set_stack (set_fut s f (mkFut (value fu) (cbs fu) true)) t
+                             (FRun f k v :: FUnlock f :: rest)) []
+| SAcceptReg f k rest fu :
+    nth_error (stacks s) t = Some (FAccept f k :: rest) ->
+    nth_error (heap s) f = Some fu -> locked fu = false -> value fu = None ->
+    step_kind t s (set_stack (set_fut s f (mkFut None (cbs fu ++ [k]) false)) t rest) []
+| SCompleteNoop f v w rest fu :
+    nth_error (stacks s) t = Some (FComplete f v :: rest) ->
+    nth_error (heap s) f = Some fu -> locked fu = false -> value fu = Some w ->
+    step_kind t s (set_stack s t rest) []
+| SCompleteSet f v rest fu :
+    nth_error (stacks s) t = Some (FComplete f v :: rest) ->
+    nth_error (heap s) f = Some fu -> locked fu = false -> value fu = None ->
+    step_kind t s (set_stack (set_fut s f (mkFut (Some v) (cbs fu) true)) t
+                             (map (fun k => FRun f k v) (cbs fu) ++ FUnlock f :: rest))
+              [ESet f v]
+| SRunLog f c v rest :
+    nth_error (stacks s) t = Some (FRun f (CLog c) v :: rest) ->
+    step_kind t s (set_stack s t rest) [ERun f c v]
+| SRunCompose f u out v rest :
+    nth_error (stacks s) t = Some (FRun f (CCompose u out) v :: rest) ->
+    step_kind t s (set_stack s t (compose_frames u out v ++ rest)) []
+| SRunForward f out v rest :
+    nth_error (stacks s) t = Some (FRun f (CForward out) v :: rest) ->
+    step_kind t s (set_stack s t (FComplete out v :: rest)) []
+| SUnlock f rest fu :
+    nth_error (stacks s) t = Some (FUnlock f :: rest) ->
+    nth_error (heap s) f = Some fu ->
+    step_kind t s (set_stack (set_fut s f (mkFut (value fu) (cbs fu) false)) t rest) []
+| SUnlockNone f rest :
+    nth_error (stacks s) t = Some (FUnlock f :: rest) ->
+    nth_error (heap s) f = None ->
+    step_kind t s (set_stack s t rest) [].
+
+Lemma tick_step t s : step_kind t s (fst (tick t s)) (snd (tick t s)).
+Proof.
+  unfold tick.
+  destruct (nth_error (stacks s) t) as [[|fr rest]|] eqn:Hst; try apply SIdle.
+  destruct fr as [f k|f v|f k v|f].
+  - destruct (nth_error (heap s) f) as [fu|] eqn:Hf; [|apply SIdle].
+    destruct (locked fu) eqn:Hl; [apply SIdle|].
+    destruct (value fu) as [v|] eqn:Hv; simpl.
+    + rewrite <- Hv at 1. eapply SAcceptRun; eauto.
+    + eapply SAcceptReg; eauto.
+  - destruct (nth_error (heap s) f) as [fu|] eqn:Hf; [|apply SIdle].
+    destruct (locked fu) eqn:Hl; [apply SIdle|].
+    destruct (value fu) as [w|] eqn:Hv; simpl.
+    + eapply SCompleteNoop; eauto.
+    + eapply SCompleteSet; eauto.
+  - destruct k as [c|u out|out]; simpl.
+    + eapply SRunLog; eauto.
+    + eapply SRunCompose; eauto.
+    + eapply SRunForward; eauto.
+  - destruct (nth_error (heap s) f) as [fu|] eqn:Hf; simpl.
+    + eapply SUnlock; eauto.
+    + eapply SUnlockNone; eauto.
+Qed.
+
+(* val / cbs_of / frames after the two kinds of update *)
+Lemma val_set_stack s t st f : val (set_stack s t st) f = val s f.
+Proof. reflexivity. Qed.
+
+Lemma val_set_fut_same s f fu fu0 :
+  nth_error (heap s) f = Some fu0 -> val (set_fut s f fu) f = value fu.
+Proof. intros H. unfold val, set_fut; simpl. now rewrite (nth_error_upd_same _ _ _ _ H). Qed.
+
+Lemma val_set_fut_other s f fu f' : f <> f' -> val (set_fut s f fu) f' = val s f'.
+Proof. intros H. unfold val, set_fut; simpl. now rewrite nth_error_upd_other. Qed.
+
+Lemma cbs_set_fut_same s f fu fu0 :
+  nth_error (heap s) f = Some fu0 -> cbs_of (set_fut s f fu) f = cbs fu.
+Proof. intros H. unfold cbs_of, set_fut; simpl. now rewrite (nth_error_upd_same _ _ _ _ H). Qed.
+
+Lemma cbs_set_fut_other s f fu f' : f <> f' -> cbs_of (set_fut s f fu) f' = cbs_of s f'.
+Proof. intros H. unfold cbs_of, set_fut; simpl. now rewrite nth_error_upd_other. Qed.
+
+(* a set_fut that keeps value and cbs changes neither val nor cbs_of *)
+Lemma val_set_fut_keep s f fu0 b f' :
+  nth_error (heap s) f = Some fu0 ->
+  val (set_fut s f (mkFut (value fu0) (cbs fu0) b)) f' = val s f'.
+Proof.
+  intros H. destruct (Nat.eq_dec f f') as [<-|Hn].
+  - rewrite (val_set_fut_same _ _ _ _ H). unfold val. now rewrite H.
+  - now apply val_set_fut_other.
+Qed.
+
+Lemma cbs_set_fut_keep s f fu0 b f' :
+  nth_error (heap s) f = Some fu0 ->
+  cbs_of (set_fut s f (mkFut (value fu0) (cbs fu0) b)) f' = cbs_of s f'.
+Proof.
+  intros H. destruct (Nat.eq_dec f f') as [<-|Hn].
+  - rewrite (cbs_set_fut_same _ _ _ _ H). unfold cbs_of. now rewrite H.
+  - now apply cbs_set_fut_other.
+Qed.
+
+(* ---------- 1. the value is fixed by the first completion ---------- *)
+
+Lemma step_val_mono t s s' ev f v :
+  step_kind t s s' ev -> val s f = Some v -> val s' f = Some v.
+Proof.
+  intros H Hv. destruct H; rewrite ?val_set_stack; auto.
+  - now rewrite (val_set_fut_keep _ _ _ _ _ H0).
+  - destruct (Nat.eq_dec f0 f) as [->|Hn].
+    + unfold val in Hv. rewrite H0 in Hv. congruence.
+    + now rewrite val_set_fut_other.
+  - destruct (Nat.eq_dec f0 f) as [->|Hn].
+    + unfold val in Hv. rewrite H0 in Hv. congruence.
+    + now rewrite val_set_fut_other.
+  - now rewrite (val_set_fut_keep _ _ _ _ _ H0).
+Qed.
+
+(* values written by ESet events on f, in order *)
+Notation sets := completions.
+
+Lemma sets_app f a b : sets f (a ++ b) = sets f a ++ sets f b.
+Proof. unfold sets. now rewrite flat_map_app. Qed.
+
+Definition sets_agree (s : state) (evs : list event) : Prop :=
+  forall f, sets f evs = match val s f with Some v => [v] | None => [] end.
+
+Lemma step_sets_agree t s s' ev evs :
+  step_kind t s s' ev -> sets_agree s evs -> sets_agree s' (evs ++ ev).
+Proof.
+  intros H Ha f. rewrite sets_app, (Ha f).
+  destruct H; rewrite ?val_set_stack; simpl; rewrite ?app_nil_r; auto.
+  - now rewrite (val_set_fut_keep _ _ _ _ _ H0).
+  - destruct (Nat.eq_dec f0 f) as [->|Hn].
+    + rewrite (val_set_fut_same _ _ _ _ H0). simpl. unfold val. now rewrite H0, H2.
+    + now rewrite val_set_fut_other.
+  - destruct (Nat.eq_dec f0 f) as [->|Hn].
+    + rewrite (val_set_fut_same _ _ _ _ H0). simpl. rewrite Nat.eqb_refl.
+      unfold val. now rewrite H0, H2.
+    + rewrite val_set_fut_other by auto.
+      replace (f =? f0) with false by (symmetry; apply Nat.eqb_neq; auto).
+      now rewrite app_nil_r.
+  - now rewrite (val_set_fut_keep _ _ _ _ _ H0).
+Qed.
+
+(* every frame "invoke k(v) inside f's critical section" carries f's value *)
+Definition runs_carry_value (s : state) : Prop :=
+  forall f k v, In (FRun f k v) (frames s) -> val s f = Some v.
+
+Lemma frames_set_stack_in s t old new x :
+  nth_error (stacks s) t = Some old ->
+  In x (frames (set_stack s t new)) -> In x new \/ In x (frames s).
+Proof. intros H. unfold frames, set_stack; simpl. now apply in_concat_upd with (old := old). Qed.
+
+Lemma frames_top s t fr rest : nth_error (stacks s) t = Some (fr :: rest) -> In fr (frames s).
+Proof. intros H. eapply in_concat_nth; eauto. now left. Qed.
+
+Lemma frames_rest s t fr rest x :
+  nth_error (stacks s) t = Some (fr :: rest) -> In x rest -> In x (frames s).
+Proof. intros H Hin. eapply in_concat_nth; eauto. now right. Qed.
+
+Lemma step_runs_carry t s s' ev :
+  step_kind t s s' ev -> runs_carry_value s -> runs_carry_value s'.
+Proof.
+  unfold runs_carry_value. intros H Hc f1 k1 v1 Hin.
+  assert (Hmono : forall f v, val s f = Some v -> val s' f = Some v)
+    by (intros; eapply step_val_mono; eauto).
+  assert (Hrest : forall fr rest, nth_error (stacks s) t = Some (fr :: rest) ->
+                  In (FRun f1 k1 v1) rest -> val s f1 = Some v1)
+    by (intros fr rest Hst Hr; eapply Hc, frames_rest; eauto).
+  destruct H; [eapply Hc; exact Hin|..];
+    (eapply frames_set_stack_in in Hin; [|eassumption]);
+    rewrite ?frames_set_fut in Hin;
+    (destruct Hin as [Hin|Hin]; [|eapply Hmono, Hc; exact Hin]).
+  - (* accept on completed *)
+    destruct Hin as [E|[E|Hin]]; try discriminate.
+    + inversion E; subst. rewrite val_set_stack, (val_set_fut_same _ _ _ _ H0). exact H2.
+    + eapply Hmono, Hrest; eauto.
+  - eapply Hmono, Hrest; eauto.
+  - eapply Hmono, Hrest; eauto.
+  - apply in_app_or in Hin. destruct Hin as [Hin|[E|Hin]]; try discriminate.
+    + apply in_map_iff in Hin. destruct Hin as [k [E _]]. inversion E; subst.
+      rewrite val_set_stack, (val_set_fut_same _ _ _ _ H0). reflexivity.
+    + eapply Hmono, Hrest; eauto.
+  - eapply Hmono, Hrest; eauto.
+  - apply in_app_or in Hin. destruct Hin as [Hin|Hin]; [|eapply Hmono, Hrest; eauto].
+    destruct u; simpl in Hin; intuition discriminate.
+  - destruct Hin as [E|Hin]; try discriminate. eapply Hmono, Hrest; eauto.
+  - eapply Hmono, Hrest; eauto.
+  - eapply Hmono, Hrest; eauto.
+Qed.
+
+(* log callbacks that ran saw the future's value *)
+Definition ran_value_ok (s : state) (evs : list event) : Prop :=
+  forall f c v, In (ERun f c v) evs -> val s f = Some v.
+
+Lemma step_ran_value t s s' ev evs :
+  step_kind t s s' ev -> runs_carry_value s -> ran_value_ok s evs -> ran_value_ok s' (evs ++ ev).
+Proof.
+  unfold runs_carry_value, ran_value_ok. intros H Hc Hr f1 c1 v1 Hin.
+  assert (Hmono : forall f v, val s f = Some v -> val s' f = Some v)
+    by (intros; eapply step_val_mono; eauto).
+  apply in_app_or in Hin. destruct Hin as [Hin|Hin]; [eapply Hmono, Hr, Hin|].
+  destruct H; simpl in Hin; try tauto.
+  - destruct Hin as [E|[]]. discriminate.
+  - destruct Hin as [E|[]]. inversion E; subst. rewrite val_set_stack.
+    eapply Hc. eapply frames_top; eauto.
+Qed.
+
+(* ---------- 2. every log callback runs exactly once ---------- *)
+
+Definition is_log (f : fid) (c : N) (k : cb) : bool :=
+  match k with CLog c' => N.eqb c c' | _ => false end.
+
+(* where a registration "ThenAccept f c" can be: not yet executed, waiting in f.callback,
+   about to be invoked, done *)
+Definition w_accept (f : fid) (c : N) (fr : frame) : nat :=
+  match fr with FAccept f' k => if Nat.eqb f f' && is_log f c k then 1 else 0 | _ => 0 end.
+Definition w_pending (f : fid) (c : N) (fr : frame) : nat :=
+  match fr with FRun f' k _ => if Nat.eqb f f' && is_log f c k then 1 else 0 | _ => 0 end.
+Definition w_cb (f : fid) (c : N) (k : cb) : nat := if is_log f c k then 1 else 0.
+Definition w_ran (f : fid) (c : N) (e : event) : nat :=
+  match e with ERun f' c' _ => if Nat.eqb f f' && N.eqb c c' then 1 else 0 | _ => 0 end.
+
+Definition n_accept f c s := sumf (w_accept f c) (frames s).
+Definition n_pending f c s := sumf (w_pending f c) (frames s).
+Definition n_waiting f c s :=
+  match val s f with None => sumf (w_cb f c) (cbs_of s f) | Some _ => 0 end.
+Definition n_ran f c evs := sumf (w_ran f c) evs.
+
+Definition total f c s evs := n_accept f c s + n_waiting f c s + n_pending f c s + n_ran f c evs.
+
+Lemma sumf_frames_set_stack w s t old new :
+  nth_error (stacks s) t = Some old ->
+  sumf w (frames (set_stack s t new)) + sumf w old = sumf w (frames s) + sumf w new.
+Proof. intros H. unfold frames, set_stack; simpl. now apply sumf_concat_upd. Qed.
+
+Lemma frames_set_fut s f fu : frames (set_fut s f fu) = frames s.
+Proof. reflexivity. Qed.
+
+Lemma stacks_set_fut s f fu : stacks (set_fut s f fu) = stacks s.
+Proof. reflexivity. Qed.
+
+Lemma n_waiting_set_stack f c s t st : n_waiting f c (set_stack s t st) = n_waiting f c s.
+Proof. reflexivity. Qed.
+
+Lemma sumf_pending_map f c f0 v l :
+  sumf (w_pending f c) (map (fun k => FRun f0 k v) l) =
+  if Nat.eqb f f0 then sumf (w_cb f c) l else 0.
+Proof.
+  induction l as [|k l IH]; simpl.
+  - now destruct (f =? f0).
+  - rewrite IH. unfold w_cb. destruct (f =? f0); simpl; auto.
+Qed.
+
+Lemma sumf_accept_map f c f0 v l : sumf (w_accept f c) (map (fun k => FRun f0 k v) l) = 0.
+Proof. induction l; simpl; auto. Qed.
+
+Lemma step_total t s s' ev evs f c :
+  step_kind t s s' ev -> total f c s' (evs ++ ev) = total f c s evs.
+Proof.
+  intros H. unfold total, n_accept, n_pending, n_ran. rewrite sumf_app.
+  destruct H; simpl; rewrite ?n_waiting_set_stack; try lia.
+  - (* accept on a completed future: accept -> pending *)
+    pose proof (sumf_frames_set_stack (w_accept f c) (set_fut s f0 (mkFut (value fu) (cbs fu) true)) t _
+                  (FRun f0 k v :: FUnlock f0 :: rest) H) as Ea.
+    pose proof (sumf_frames_set_stack (w_pending f c) (set_fut s f0 (mkFut (value fu) (cbs fu) true)) t _
+                  (FRun f0 k v :: FUnlock f0 :: rest) H) as Ep.
+    rewrite frames_set_fut in *. simpl in Ea, Ep.
+    assert (Ew : n_waiting f c (set_fut s f0 (mkFut (value fu) (cbs fu) true)) = n_waiting f c s).
+    { unfold n_waiting. now rewrite (val_set_fut_keep _ _ _ _ _ H0), (cbs_set_fut_keep _ _ _ _ _ H0). }
+    rewrite Ew. lia.
+  - (* accept on a pending future: accept -> waiting *)
+    pose proof (sumf_frames_set_stack (w_accept f c) (set_fut s f0 (mkFut None (cbs fu ++ [k]) false)) t _
+                  rest H) as Ea.
+    pose proof (sumf_frames_set_stack (w_pending f c) (set_fut s f0 (mkFut None (cbs fu ++ [k]) false)) t _
+                  rest H) as Ep.
+    rewrite frames_set_fut in *. simpl in Ea, Ep.
+    assert (Ew : n_waiting f c (set_fut s f0 (mkFut None (cbs fu ++ [k]) false)) =
+                 n_waiting f c s + (if Nat.eqb f f0 && is_log f c k then 1 else 0)).
+    { unfold n_waiting. destruct (Nat.eq_dec f0 f) as [->|Hn].
+      - rewrite (val_set_fut_same _ _ _ _ H0), (cbs_set_fut_same _ _ _ _ H0). simpl.
+        unfold val, cbs_of. rewrite H0, H2, sumf_app, Nat.eqb_refl. simpl. unfold w_cb.
+        destruct (is_log f c k); lia.
+      - rewrite val_set_fut_other, cbs_set_fut_other by auto.
+        replace (f =? f0) with false by (symmetry; apply Nat.eqb_neq; auto). simpl. lia. }
+    rewrite Ew. lia.
+  - pose proof (sumf_frames_set_stack (w_accept f c) s t _ rest H) as Ea.
+    pose proof (sumf_frames_set_stack (w_pending f c) s t _ rest H) as Ep.
+    simpl in Ea, Ep. lia.
+  - (* completion: waiting -> pending *)
+    pose proof (sumf_frames_set_stack (w_accept f c) (set_fut s f0 (mkFut (Some v) (cbs fu) true)) t _
+                  (map (fun k => FRun f0 k v) (cbs fu) ++ FUnlock f0 :: rest) H) as Ea.
+    pose proof (sumf_frames_set_stack (w_pending f c) (set_fut s f0 (mkFut (Some v) (cbs fu) true)) t _
+                  (map (fun k => FRun f0 k v) (cbs fu) ++ FUnlock f0 :: rest) H) as Ep.
+    rewrite frames_set_fut in *. rewrite sumf_app in Ea, Ep.
+    rewrite sumf_accept_map in Ea. rewrite sumf_pending_map in Ep. simpl in Ea, Ep.
+    assert (Ew : n_waiting f c (set_fut s f0 (mkFut (Some v) (cbs fu) true)) +
+                 (if Nat.eqb f f0 then sumf (w_cb f c) (cbs fu) else 0) = n_waiting f c s).
+    { unfold n_waiting. destruct (Nat.eq_dec f0 f) as [->|Hn].
+      - rewrite (val_set_fut_same _ _ _ _ H0). simpl. unfold val, cbs_of.
+        now rewrite H0, H2, Nat.eqb_refl.
+      - rewrite val_set_fut_other, cbs_set_fut_other by auto.
+        replace (f =? f0) with false by (symmetry; apply Nat.eqb_neq; auto). lia. }
+    lia.
+  - (* a log callback runs: pending -> ran *)
+    pose proof (sumf_frames_set_stack (w_accept f c) s t _ rest H) as Ea.
+    pose proof (sumf_frames_set_stack (w_pending f c) s t _ rest H) as Ep.
+    simpl in Ea, Ep. destruct (f =? f0); simpl in *; destruct (N.eqb c c0); simpl in *; lia.
+  - pose proof (sumf_frames_set_stack (w_accept f c) s t _ (compose_frames u out v ++ rest) H) as Ea.
+    pose proof (sumf_frames_set_stack (w_pending f c) s t _ (compose_frames u out v ++ rest) H) as Ep.
+    rewrite sumf_app in Ea, Ep. simpl in Ea, Ep.
+    assert (sumf (w_accept f c) (compose_frames u out v) = 0).
+    { destruct u; simpl; rewrite ?andb_false_r; reflexivity. }
+    assert (sumf (w_pending f c) (compose_frames u out v) = 0) by (destruct u; reflexivity).
+    rewrite andb_false_r in Ep. lia.
+  - pose proof (sumf_frames_set_stack (w_accept f c) s t _ (FComplete out v :: rest) H) as Ea.
+    pose proof (sumf_frames_set_stack (w_pending f c) s t _ (FComplete out v :: rest) H) as Ep.
+    simpl in Ea, Ep. rewrite andb_false_r in Ep. lia.
+  - pose proof (sumf_frames_set_stack (w_accept f c) (set_fut s f0 (mkFut (value fu) (cbs fu) false)) t _
+                  rest H) as Ea.
+    pose proof (sumf_frames_set_stack (w_pending f c) (set_fut s f0 (mkFut (value fu) (cbs fu) false)) t _
+                  rest H) as Ep.
+    rewrite frames_set_fut in *. simpl in Ea, Ep.
+    assert (Ew : n_waiting f c (set_fut s f0 (mkFut (value fu) (cbs fu) false)) = n_waiting f c s).
+    { unfold n_waiting. now rewrite (val_set_fut_keep _ _ _ _ _ H0), (cbs_set_fut_keep _ _ _ _ _ H0). }
+    rewrite Ew. lia.
+  - pose proof (sumf_frames_set_stack (w_accept f c) s t _ rest H) as Ea.
+    pose proof (sumf_frames_set_stack (w_pending f c) s t _ rest H) as Ep.
+    simpl in Ea, Ep. lia.
+Qed.
+
+(* ---------- lifting to every schedule ---------- *)
+
+Definition ticks_only (ts : list (@thread state event)) : Prop :=
+  forall a, In a (concat ts) -> exists t, a = tick t.
+
+Lemma sumf_map {A B} (w : B -> nat) (g : A -> B) l : sumf w (map g l) = sumf (fun a => w (g a)) l.
+Proof. induction l; simpl; auto. Qed.
+
+Lemma sumf_ext {A} (w w' : A -> nat) l : (forall a, w a = w' a) -> sumf w l = sumf w' l.
+Proof. intros H. induction l; simpl; auto. Qed.
+
+Lemma sumf_filter {A} (p : A -> bool) l : sumf (fun a => if p a then 1 else 0) l = length (filter p l).
+Proof. induction l as [|a l IH]; simpl; auto. destruct (p a); simpl; lia. Qed.
+
+Lemma frames_init nfut progs : frames (init nfut progs) = map start_frame (concat progs).
+Proof. unfold frames, init; simpl. now rewrite concat_map. Qed.
+
+Lemma val_init nfut progs f : val (init nfut progs) f = None.
+Proof.
+  unfold value_of, init; simpl.
+  destruct (nth_error (repeat fresh nfut) f) as [fu|] eqn:E; auto.
+  apply nth_error_In, repeat_spec in E. now subst.
+Qed.
+
+Lemma cbs_init nfut progs f : cbs_of (init nfut progs) f = [].
+Proof.
+  unfold cbs_of, init; simpl.
+  destruct (nth_error (repeat fresh nfut) f) as [fu|] eqn:E; auto.
+  apply nth_error_In, repeat_spec in E. now subst.
+Qed.
+
+Lemma n_ran_count f c evs : n_ran f c evs = runs_count f c evs.
+Proof.
+  unfold n_ran, runs_count. rewrite <- sumf_filter. apply sumf_ext.
+  intros [f' v|f' c' v]; simpl; auto.
+Qed.
+
+Lemma total_init nfut progs f c :
+  total f c (init nfut progs) [] = registrations f c progs.
+Proof.
+  unfold total, n_accept, n_pending, n_waiting, n_ran.
+  rewrite val_init, cbs_init, frames_init, !sumf_map. simpl.
+  unfold registrations. rewrite <- sumf_filter.
+  assert (E : sumf (fun a => w_pending f c (start_frame a)) (concat progs) = 0).
+  { induction (concat progs) as [|o l IH]; simpl; auto. destruct o; simpl; auto. }
+  rewrite E.
+  assert (E2 : sumf (fun a => w_accept f c (start_frame a)) (concat progs) =
+               sumf (fun o => if match o with ThenAccept f' c' => Nat.eqb f f' && N.eqb c c' | _ => false end
+                              then 1 else 0) (concat progs)).
+  { apply sumf_ext. intros [f' c'|f' v|f' u o]; simpl; auto. now rewrite andb_false_r. }
+  rewrite E2. lia.
+Qed.
+
+Definition good (s0 s : state) (evs : list event) : Prop :=
+  sets_agree s evs /\ runs_carry_value s /\ ran_value_ok s evs
+  /\ forall f c, total f c s evs = total f c s0 [].
+
+Lemma good_tick s0 t s evs :
+  good s0 s evs -> good s0 (fst (tick t s)) (evs ++ snd (tick t s)).
+Proof.
+  intros (Ha & Hc & Hr & Ht). pose proof (tick_step t s) as Hs.
+  repeat split.
+  - eapply step_sets_agree; eauto.
+  - eapply step_runs_carry; eauto.
+  - eapply step_ran_value; eauto.
+  - intros f c. rewrite (step_total _ _ _ _ _ f c Hs). apply Ht.
+Qed.
+
+Lemma good_init nfut progs : good (init nfut progs) (init nfut progs) [].
+Proof.
+  repeat split.
+  - intros f. now rewrite val_init.
+  - intros f k v Hin. rewrite frames_init in Hin. apply in_map_iff in Hin.
+    destruct Hin as [o [E _]]. destruct o; discriminate.
+  - intros f c v [].
+Qed.
+
+Lemma all_schedules_good nfut progs ts sched :
+  ticks_only ts ->
+  good (init nfut progs) (final_state (run ts sched (init nfut progs)))
+       (events (run ts sched (init nfut progs))).
+Proof.
+  intros Ht.
+  apply (trace_inv_all_schedules (good (init nfut progs)) ts) with (evs0 := []).
+  - intros a Ha s evs Hg. destruct (Ht a Ha) as [t ->]. now apply good_tick.
+  - apply good_init.
+Qed.
+
+(* 1. first completion wins *)
+Lemma first_wins_all nfut progs ts sched f :
+  ticks_only ts ->
+  let r := run ts sched (init nfut progs) in
+  completions f (events r) = match value_of (final_state r) f with Some v => [v] | None => [] end
+  /\ forall c w, In (ERun f c w) (events r) -> value_of (final_state r) f = Some w.
+Proof.
+  intros Ht r. destruct (all_schedules_good nfut progs ts sched Ht) as (Ha & _ & Hr & _).
+  split; [apply Ha|]. intros c w. apply Hr.
+Qed.
+
+(* once set, the value survives any further schedule from any state *)
+Lemma value_stable_all ts sched s f v :
+  ticks_only ts -> value_of s f = Some v ->
+  value_of (final_state (run ts sched s)) f = Some v.
+Proof.
+  intros Ht Hv.
+  apply (inv_all_schedules (fun s => value_of s f = Some v) ts); auto.
+  intros a Ha s1 H1. destruct (Ht a Ha) as [t ->].
+  eapply step_val_mono; [apply tick_step|exact H1].
+Qed.
+
+Lemma quiescent_frames s : quiescent s = true -> frames s = [].
+Proof.
+  unfold quiescent, frames. induction (stacks s) as [|st l IH]; simpl; auto.
+  destruct st; simpl; [auto|discriminate].
+Qed.
+
+(* 2. exactly once *)
+Lemma callback_exactly_once_all nfut progs ts sched f c :
+  ticks_only ts ->
+  let r := run ts sched (init nfut progs) in
+  runs_count f c (events r) <= registrations f c progs
+  /\ (quiescent (final_state r) = true ->
+      match value_of (final_state r) f with
+      | Some _ => runs_count f c (events r) = registrations f c progs
+      | None => runs_count f c (events r) = 0
+      end).
+Proof.
+  intros Ht r. destruct (all_schedules_good nfut progs ts sched Ht) as (_ & _ & _ & Htot).
+  specialize (Htot f c). rewrite total_init in Htot. unfold total in Htot.
+  rewrite n_ran_count in Htot. fold r in Htot. split; [lia|].
+  intros Hq. apply quiescent_frames in Hq.
+  unfold n_accept, n_pending, n_waiting in Htot. rewrite Hq in Htot. simpl in Htot.
+  destruct (value_of (final_state r) f) eqn:Ev; [lia|].
+  (* not completed: a run would carry f's value, and there is none *)
+  destruct (all_schedules_good nfut progs ts sched Ht) as (_ & _ & Hr & _). fold r in Hr.
+  unfold runs_count. destruct (filter _ (events r)) as [|e l] eqn:E; auto.
+  assert (Hin : In e (filter (fun e => match e with ERun f' c' _ => Nat.eqb f f' && N.eqb c c' | _ => false end)
+                             (events r))) by (rewrite E; now left).
+  apply filter_In in Hin. destruct Hin as [Hin Hp]. destruct e as [|f' c' v]; [discriminate|].
+  apply andb_true_iff in Hp. destruct Hp as [Hf _]. apply Nat.eqb_eq in Hf. subst f'.
+  specialize (Hr _ _ _ Hin). congruence.
+Qed.
+
+(* ---------- 3. composed futures complete in chain order ---------- *)
+
+Section Chain.
+  Variable C : list (fid * ucb * fid).           (* the ThenCompose calls: (f, user function, out) *)
+  Hypothesis C_unique : forall f u f' u' o, In (f, u, o) C -> In (f', u', o) C -> f = f' /\ u = u'.
+  Hypothesis C_completing : forall f g add o f' u', In (f, UCompleting g add, o) C -> ~ In (f', u', g) C.
+
+  Definition frame_ok (V : fid -> option N) (fr : frame) : Prop :=
+    match fr with
+    | FAccept f' (CCompose u o) => In (f', u, o) C
+    | FAccept g' (CForward o) => exists f u, In (f, u, o) C /\ g' = inner u /\ V f <> None
+    | FAccept _ (CLog _) => True
+    | FComplete o w => forall f u, In (f, u, o) C -> V f <> None /\ V (inner u) = Some w
+    | FRun f' (CCompose u o) v => In (f', u, o) C /\ V f' = Some v
+    | FRun g' (CForward o) w =>
+        exists f u, In (f, u, o) C /\ g' = inner u /\ V f <> None /\ V g' = Some w
+    | FRun _ (CLog _) _ => True
+    | FUnlock _ => True
+    end.
+
+  Definition cb_ok (V : fid -> option N) (f' : fid) (k : cb) : Prop :=
+    match k with
+    | CCompose u o => In (f', u, o) C
+    | CForward o => exists f u, In (f, u, o) C /\ f' = inner u /\ V f <> None
+    | CLog _ => True
+    end.
+
+  Definition vle (V V' : fid -> option N) : Prop := forall f v, V f = Some v -> V' f = Some v.
+
+  Lemma vle_nn V V' f : vle V V' -> V f <> None -> V' f <> None.
+  Proof. intros H Hn. destruct (V f) as [v|] eqn:E; [|congruence]. rewrite (H _ _ E). discriminate. Qed.
+
+  Lemma frame_ok_mono V V' fr : vle V V' -> frame_ok V fr -> frame_ok V' fr.
+  Proof.
+    intros Hle. destruct fr as [f k|f v|f k v|f]; simpl; auto.
+    - destruct k; auto. intros (f0 & u & Hin & E & Hn). exists f0, u. repeat split; auto.
+      eapply vle_nn; eauto.
+    - intros H f0 u Hin. destruct (H f0 u Hin) as [Hn Hv]. split; [eapply vle_nn; eauto|auto].
+    - destruct k; auto.
+      + intros [Hin Hv]. split; auto.
+      + intros (f0 & u & Hin & E & Hn & Hv). exists f0, u. repeat split; auto.
+        eapply vle_nn; eauto.
+  Qed.
+
+  Lemma cb_ok_mono V V' f k : vle V V' -> cb_ok V f k -> cb_ok V' f k.
+  Proof.
+    intros Hle. destruct k; simpl; auto.
+    intros (f0 & u & Hin & E & Hn). exists f0, u. repeat split; auto. eapply vle_nn; eauto.
+  Qed.
+
+  Definition chain_inv (s : state) : Prop :=
+    (forall fr, In fr (frames s) -> frame_ok (val s) fr)
+    /\ (forall f k, In k (cbs_of s f) -> cb_ok (val s) f k).
+
+  (* a completion of an out future happens only when its source and its inner future are
+     completed, and with the inner future's value *)
+  Definition set_justified (s : state) (ev : list event) : Prop :=
+    forall o w, In (ESet o w) ev ->
+      forall f u, In (f, u, o) C -> val s f <> None /\ val s (inner u) = Some w.
+
+  Lemma step_chain t s s' ev :
+    step_kind t s s' ev -> chain_inv s -> chain_inv s' /\ set_justified s ev.
+  Proof.
+    intros H [HF HK].
+    assert (Hle : vle (val s) (val s')) by (intros f v; eapply step_val_mono; eauto).
+    assert (Htop : forall fr rest, nth_error (stacks s) t = Some (fr :: rest) -> frame_ok (val s) fr)
+      by (intros fr rest Hst; eapply HF, frames_top; eauto).
+    assert (Hrest : forall fr rest x, nth_error (stacks s) t = Some (fr :: rest) -> In x rest ->
+                    frame_ok (val s') x)
+      by (intros fr rest x Hst Hx; eapply frame_ok_mono, HF, frames_rest; eauto).
+    assert (Hold : forall x, In x (frames s) -> frame_ok (val s') x)
+      by (intros x Hx; eapply frame_ok_mono, HF; eauto).
+    assert (HKold : forall f k, In k (cbs_of s f) -> cb_ok (val s') f k)
+      by (intros f k Hk; eapply cb_ok_mono, HK; eauto).
+    (* frames of s' are: new frames of thread t, or old frames *)
+    assert (Hfr : forall old new s1, nth_error (stacks s1) t = Some old -> frames s1 = frames s ->
+                  forall x, In x (frames (set_stack s1 t new)) -> In x new \/ In x (frames s)).
+    { intros old new s1 Hst Hfs x Hx. eapply frames_set_stack_in in Hx; eauto. now rewrite Hfs in Hx. }
+    destruct H.
+    - (* idle *) split; [split; auto|]. intros o w [].
+    - (* accept on a completed future *)
+      pose proof (Htop _ _ H) as Ht.
+      assert (Hv : val s f = Some v) by (unfold value_of; now rewrite H0).
+      set (s1 := set_fut s f (mkFut (value fu) (cbs fu) true)) in *.
+      set (V' := val (set_stack s1 t (FRun f k v :: FUnlock f :: rest))) in *.
+      split; [split|intros o w []].
+      + intros fr Hin. eapply (Hfr _ _ s1) in Hin; [|exact H|reflexivity].
+        destruct Hin as [Hin|Hin]; [|auto].
+        destruct Hin as [<-|[<-|Hin]]; [|exact I|eapply Hrest; eauto].
+        destruct k as [c|u o|o]; simpl; [exact I| |].
+        * split; [exact Ht|apply Hle, Hv].
+        * simpl in Ht. destruct Ht as (f0 & u & Hin & E & Hn). exists f0, u.
+          split; [exact Hin|]. split; [exact E|]. split; [eapply vle_nn; eauto|apply Hle, Hv].
+      + intros f1 k1 Hk. apply HKold.
+        change (In k1 (cbs_of s1 f1)) in Hk. unfold s1 in Hk.
+        now rewrite (cbs_set_fut_keep _ _ _ _ _ H0) in Hk.
+    - (* accept on a pending future: the closure joins f.callback *)
+      pose proof (Htop _ _ H) as Ht.
+      set (s1 := set_fut s f (mkFut None (cbs fu ++ [k]) false)) in *.
+      set (V' := val (set_stack s1 t rest)) in *.
+      split; [split|intros o w []].
+      + intros fr Hin. eapply (Hfr _ _ s1) in Hin; [|exact H|reflexivity].
+        destruct Hin as [Hin|Hin]; [eapply Hrest; eauto|auto].
+      + intros f1 k1 Hk. change (In k1 (cbs_of s1 f1)) in Hk. unfold s1 in Hk.
+        destruct (Nat.eq_dec f f1) as [<-|Hn].
+        * rewrite (cbs_set_fut_same _ _ _ _ H0) in Hk. simpl in Hk.
+          apply in_app_or in Hk. destruct Hk as [Hk|[<-|[]]].
+          -- apply HKold. unfold cbs_of. now rewrite H0.
+          -- destruct k as [c|u o|o]; simpl; [exact I|exact Ht|].
+             simpl in Ht. destruct Ht as (f0 & u & Hin & E & Hn0). exists f0, u. repeat split; auto.
+             eapply vle_nn; eauto.
+        * rewrite cbs_set_fut_other in Hk by auto. now apply HKold.
+    - (* complete on a completed future *)
+      split; [split; auto|intros o w' []].
+      intros fr Hin. eapply (Hfr _ _ s) in Hin; [|exact H|reflexivity].
+      destruct Hin as [Hin|Hin]; [eapply Hrest; eauto|auto].
+    - (* completion takes effect *)
+      pose proof (Htop _ _ H) as Ht. simpl in Ht.
+      set (s1 := set_fut s f (mkFut (Some v) (cbs fu) true)) in *.
+      set (new := map (fun k => FRun f k v) (cbs fu) ++ FUnlock f :: rest) in *.
+      assert (Hv : val (set_stack s1 t new) f = Some v)
+        by (rewrite val_set_stack; unfold s1; now rewrite (val_set_fut_same _ _ _ _ H0)).
+      set (V' := val (set_stack s1 t new)) in *.
+      split; [split|].
+      + intros fr Hin. eapply (Hfr _ _ s1) in Hin; [|exact H|reflexivity].
+        destruct Hin as [Hin|Hin]; [|auto].
+        unfold new in Hin. apply in_app_or in Hin.
+        destruct Hin as [Hin|[<-|Hin]]; [|exact I|eapply Hrest; eauto].
+        apply in_map_iff in Hin. destruct Hin as [k [<- Hk]].
+        assert (Hk0 : cb_ok (val s) f k) by (apply HK; unfold cbs_of; now rewrite H0).
+        destruct k as [c|u o|o]; simpl; [exact I| |].
+        * split; [exact Hk0|exact Hv].
+        * simpl in Hk0. destruct Hk0 as (f0 & u & Hin & E & Hn). exists f0, u. repeat split; auto.
+          eapply vle_nn; eauto.
+      + intros f1 k1 Hk. change (In k1 (cbs_of s1 f1)) in Hk. unfold s1 in Hk.
+        apply HKold. destruct (Nat.eq_dec f f1) as [<-|Hn].
+        * rewrite (cbs_set_fut_same _ _ _ _ H0) in Hk. unfold cbs_of. now rewrite H0.
+        * now rewrite cbs_set_fut_other in Hk by auto.
+      + intros o w [E|[]]. inversion E; subst. exact Ht.
+    - (* a log callback runs *)
+      split; [split; auto|intros o w [E|[]]; discriminate].
+      intros fr Hin. eapply (Hfr _ _ s) in Hin; [|exact H|reflexivity].
+      destruct Hin as [Hin|Hin]; [eapply Hrest; eauto|auto].
+    - (* ThenCompose's closure runs on f: calls the user function, registers the forwarder *)
+      pose proof (Htop _ _ H) as Ht. simpl in Ht. destruct Ht as [HinC Hv].
+      set (V' := val (set_stack s t (compose_frames u out v ++ rest))) in *.
+      assert (Hnn : V' f <> None) by (eapply vle_nn; [exact Hle|rewrite Hv; discriminate]).
+      split; [split; auto|intros o w []].
+      intros fr Hin. eapply (Hfr _ _ s) in Hin; [|exact H|reflexivity].
+      destruct Hin as [Hin|Hin]; [|auto].
+      apply in_app_or in Hin. destruct Hin as [Hin|Hin]; [|eapply Hrest; eauto].
+      destruct u as [g|g add]; simpl in Hin.
+      + destruct Hin as [<-|[]]. simpl. exists f, (UExisting g). auto.
+      + destruct Hin as [<-|[<-|[]]]; simpl.
+        * intros f0 u0 Hin0. exfalso. eapply C_completing; eauto.
+        * exists f, (UCompleting g add). auto.
+    - (* the forwarder runs on the inner future: out.Complete(value) *)
+      pose proof (Htop _ _ H) as Ht. simpl in Ht. destruct Ht as (f0 & u & HinC & E & Hn & Hv).
+      set (V' := val (set_stack s t (FComplete out v :: rest))) in *.
+      split; [split; auto|intros o w []].
+      intros fr Hin. eapply (Hfr _ _ s) in Hin; [|exact H|reflexivity].
+      destruct Hin as [[<-|Hin]|Hin]; [|eapply Hrest; eauto|auto].
+      simpl. intros f1 u1 Hin1. destruct (C_unique _ _ _ _ _ HinC Hin1) as [-> ->].
+      subst f. split; [eapply vle_nn; eauto|apply Hle, Hv].
+    - (* unlock *)
+      set (s1 := set_fut s f (mkFut (value fu) (cbs fu) false)) in *.
+      split; [split|intros o w []].
+      + intros fr Hin. eapply (Hfr _ _ s1) in Hin; [|exact H|reflexivity].
+        destruct Hin as [Hin|Hin]; [eapply Hrest; eauto|auto].
+      + intros f1 k1 Hk. change (In k1 (cbs_of s1 f1)) in Hk. unfold s1 in Hk.
+        rewrite (cbs_set_fut_keep _ _ _ _ _ H0) in Hk. now apply HKold.
+    - split; [split; auto|intros o w []].
+      intros fr Hin. eapply (Hfr _ _ s) in Hin; [|exact H|reflexivity].
+      destruct Hin as [Hin|Hin]; [eapply Hrest; eauto|auto].
+  Qed.
+
+  (* trace form: an out future's completion event comes after its source's and its inner
+     future's, and carries the inner future's value *)
+  Definition chain_trace (evs : list event) : Prop :=
+    forall n o w, nth_error evs n = Some (ESet o w) ->
+      forall f u, In (f, u, o) C ->
+        (exists m v, m < n /\ nth_error evs m = Some (ESet f v))
+        /\ (exists m, m < n /\ nth_error evs m = Some (ESet (inner u) w)).
+
+  Lemma sets_in f v evs : In v (sets f evs) -> In (ESet f v) evs.
+  Proof.
+    unfold completions. intros H. apply in_flat_map in H. destruct H as [e [He Hv]].
+    destruct e as [f' v'|]; [|destruct Hv].
+    destruct (Nat.eqb_spec f f') as [->|]; [|destruct Hv]. destruct Hv as [->|[]]. exact He.
+  Qed.
+
+  Lemma set_before s evs f v :
+    sets_agree s evs -> val s f = Some v -> exists m, m < length evs /\ nth_error evs m = Some (ESet f v).
+  Proof.
+    intros Ha Hv. specialize (Ha f). rewrite Hv in Ha.
+    assert (Hin : In (ESet f v) evs) by (apply sets_in; rewrite Ha; now left).
+    apply In_nth_error in Hin. destruct Hin as [m Hm]. exists m. split; auto.
+    apply nth_error_Some. congruence.
+  Qed.
+
+  Lemma step_chain_trace t s s' ev evs :
+    step_kind t s s' ev -> sets_agree s evs -> set_justified s ev ->
+    chain_trace evs -> chain_trace (evs ++ ev).
+  Proof.
+    intros H Ha Hj Hc n o w Hn f u HinC.
+    destruct (Nat.lt_ge_cases n (length evs)) as [Hlt|Hge].
+    - rewrite nth_error_app1 in Hn by auto.
+      destruct (Hc n o w Hn f u HinC) as [(m & v & Hm & Em) (m' & Hm' & Em')].
+      split.
+      + exists m, v. split; auto. rewrite nth_error_app1 by lia. auto.
+      + exists m'. split; auto. rewrite nth_error_app1 by lia. auto.
+    - rewrite nth_error_app2 in Hn by auto.
+      assert (Hin : In (ESet o w) ev) by (eapply nth_error_In; eauto).
+      destruct (Hj o w Hin f u HinC) as [Hnn Hv].
+      destruct (val s f) as [v|] eqn:Ef; [|congruence].
+      destruct (set_before _ _ _ _ Ha Ef) as (m & Hm & Em).
+      destruct (set_before _ _ _ _ Ha Hv) as (m' & Hm' & Em').
+      split.
+      + exists m, v. split; [lia|]. rewrite nth_error_app1 by lia. auto.
+      + exists m'. split; [lia|]. rewrite nth_error_app1 by lia. auto.
+  Qed.
+
+  Definition good_chain (s : state) (evs : list event) : Prop :=
+    sets_agree s evs /\ chain_inv s /\ chain_trace evs.
+
+  Lemma good_chain_tick t s evs :
+    good_chain s evs -> good_chain (fst (tick t s)) (evs ++ snd (tick t s)).
+  Proof.
+    intros (Ha & Hi & Hc). pose proof (tick_step t s) as Hs.
+    destruct (step_chain _ _ _ _ Hs Hi) as [Hi' Hj].
+    split; [eapply step_sets_agree; eauto|]. split; [exact Hi'|].
+    eapply step_chain_trace; eauto.
+  Qed.
+End Chain.
+
+Lemma nodup_snd_unique {A B} (l : list (A * B)) a a' b :
+  NoDup (map snd l) -> In (a, b) l -> In (a', b) l -> a = a'.
+Proof.
+  induction l as [|[x y] l IH]; simpl; intros Hnd H1 H2; [destruct H1|].
+  inversion Hnd as [|? ? Hnot Hnd']; subst.
+  destruct H1 as [E1|H1], H2 as [E2|H2].
+  - congruence.
+  - inversion E1; subst. exfalso. apply Hnot. apply in_map_iff. exists (a', b). auto.
+  - inversion E2; subst. exfalso. apply Hnot. apply in_map_iff. exists (a, b). auto.
+  - eauto.
+Qed.
+
+Lemma in_composes progs f u o :
+  In (f, u, o) (composes progs) <-> In (ThenCompose f u o) (concat progs).
+Proof.
+  unfold composes. rewrite in_flat_map. split.
+  - intros [x [Hx Hin]]. destruct x; simpl in Hin; try tauto.
+    destruct Hin as [E|[]]. inversion E; subst. exact Hx.
+  - intros H. exists (ThenCompose f u o). split; auto. now left.
+Qed.
+
+(* programs in which the futures returned by ThenCompose are completed by nobody else *)
+Definition wf_progs (progs : list (list op)) : Prop :=
+  NoDup (outs progs)
+  /\ (forall f v, In (Complete f v) (concat progs) -> ~ In f (outs progs))
+  /\ (forall f g add o, In (ThenCompose f (UCompleting g add) o) (concat progs) -> ~ In g (outs progs)).
+
+Lemma chain_order_all nfut progs ts sched :
+  ticks_only ts -> wf_progs progs ->
+  let evs := events (run ts sched (init nfut progs)) in
+  forall f u out, In (ThenCompose f u out) (concat progs) ->
+  forall n w, nth_error evs n = Some (ESet out w) ->
+    (exists m v, m < n /\ nth_error evs m = Some (ESet f v))
+    /\ (exists m, m < n /\ nth_error evs m = Some (ESet (inner u) w)).
+Proof.
+  intros Ht (Hnd & Hcomp & Hucomp) evs f u out Hin n w Hn.
+  set (C := composes progs).
+  assert (Cu : forall f u f' u' o, In (f, u, o) C -> In (f', u', o) C -> f = f' /\ u = u').
+  { intros f1 u1 f2 u2 o H1 H2.
+    assert (E : (f1, u1) = (f2, u2)) by (eapply nodup_snd_unique; eauto). now inversion E. }
+  assert (Cc : forall f g add o f' u', In (f, UCompleting g add, o) C -> ~ In (f', u', g) C).
+  { intros f1 g add o f2 u2 H1 H2. apply in_composes in H1.
+    apply (Hucomp _ _ _ _ H1). unfold outs. apply in_map_iff. exists (f2, u2, g). auto. }
+  assert (G : good_chain C (final_state (run ts sched (init nfut progs)))
+                         (events (run ts sched (init nfut progs)))).
+  { apply (trace_inv_all_schedules (good_chain C) ts) with (evs0 := []).
+    - intros a Ha s evs0 Hg. destruct (Ht a Ha) as [t ->]. now apply good_chain_tick.
+    - split; [|split; [split|]].
+      + intros f0. now rewrite val_init.
+      + intros fr Hfr. rewrite frames_init in Hfr. apply in_map_iff in Hfr.
+        destruct Hfr as [o [<- Ho]]. destruct o as [f0 c|f0 v|f0 u0 o0]; simpl; auto.
+        * intros f1 u1 H1. exfalso. apply (Hcomp _ _ Ho). unfold outs.
+          apply in_map_iff. exists (f1, u1, f0). auto.
+        * apply in_composes. exact Ho.
+      + intros f0 k Hk. rewrite cbs_init in Hk. destruct Hk.
+      + intros k0 o w0 Hk0. destruct k0; discriminate. }
+  destruct G as (_ & _ & Hc). apply (Hc n out w Hn f u). apply in_composes. exact Hin.
+Qed.
+
+(* ---------- 4. re-entrancy: outside the property, recorded as a fact of the model ---------- *)
+
+(* a goroutine whose next frame needs the mutex of a future it locked itself (the unlock is
+   further down its own stack) can never move: [tick] leaves the state unchanged *)
+Lemma reentrant_no_progress t s f rest fu fr :
+  nth_error (stacks s) t = Some (fr :: rest) ->
+  (exists k, fr = FAccept f k) \/ (exists v, fr = FComplete f v) ->
+  In (FUnlock f) rest ->
+  nth_error (heap s) f = Some fu -> locked fu = true ->
+  tick t s = (s, []).
+Proof.
+  intros Hst Hfr _ Hf Hl. unfold tick. rewrite Hst.
+  destruct Hfr as [[k ->]|[v ->]]; now rewrite Hf, Hl.
+Qed.
+
+(* ThenCompose(f, func(v) { return f }) followed by f.Complete(v): the closure calls
+   f.ThenAccept while f.Complete holds f.mu.  The call hangs after the value was set. *)
+Example reentrant_stuck_example :
+  let '(s1, r1) := call (init 2 []) (ThenCompose 0 (UExisting 0) 1) in
+  let '(s2, r2) := call s1 (Complete 0 7%N) in
+  r1 = ([], Done) /\ r2 = ([ESet 0 7%N], Stuck)
+  /\ blocked 1 s2 = true /\ tick 1 s2 = (s2, []).
+Proof. vm_compute. repeat split; reflexivity. Qed.
+
+Lemma chain_of_two_all nfut progs ts sched :
+  ticks_only ts -> wf_progs progs ->
+  let evs := events (run ts sched (init nfut progs)) in
+  forall f0 u1 f1 u2 f2,
+  In (ThenCompose f0 u1 f1) (concat progs) -> In (ThenCompose f1 u2 f2) (concat progs) ->
+  forall n2 w2, nth_error evs n2 = Some (ESet f2 w2) ->
+    exists n1 w1 n0 w0, n0 < n1 /\ n1 < n2
+      /\ nth_error evs n1 = Some (ESet f1 w1) /\ nth_error evs n0 = Some (ESet f0 w0).
+Proof.
+  intros Ht Hwf evs f0 u1 f1 u2 f2 H1 H2 n2 w2 Hn2.
+  destruct (chain_order_all nfut progs ts sched Ht Hwf _ _ _ H2 _ _ Hn2) as [(n1 & w1 & Hlt1 & E1) _].
+  destruct (chain_order_all nfut progs ts sched Ht Hwf _ _ _ H1 _ _ E1) as [(n0 & w0 & Hlt0 & E0) _].
+  exists n1, w1, n0, w0. auto.
+Qed.
+
+(* ---------- non-vacuity: concrete programs ---------- *)
+
+Definition nv_progs : list (list op) :=
+  [[ThenAccept 0 1%N; Complete 0 5%N]; [Complete 0 6%N; ThenAccept 0 2%N]].
+
+Definition nv_check : bool :=
+  let outs_ := outcomes [repeat (tick 0) 6; repeat (tick 1) 6] (init 1 nv_progs) in
+  forallb (fun r =>
+     let s := final_state r in let evs := events r in
+     (runs_count 0 1%N evs <=? 1) && (runs_count 0 2%N evs <=? 1) && (length (completions 0 evs) <=? 1)
+     && (negb (quiescent s)
+         || ((runs_count 0 1%N evs =? 1) && (runs_count 0 2%N evs =? 1)
+             && (length (completions 0 evs) =? 1)))) outs_
+  && existsb (fun r => quiescent (final_state r)) outs_
+  && (length outs_ =? 924).
+
+Lemma nv_check_ok : nv_check = true.
+Proof. vm_compute. reflexivity. Qed.
+
+Definition chain_progs : list (list op) :=
+  [[ThenCompose 0 (UExisting 1) 2; ThenCompose 2 (UCompleting 3 10%N) 4; Complete 1 7%N];
+   [Complete 0 3%N]].
+
+Lemma chain_example_ok :
+  (NoDup (outs chain_progs)
+   /\ (forall f v, In (Complete f v) (concat chain_progs) -> ~ In f (outs chain_progs))
+   /\ (forall f g add o, In (ThenCompose f (UCompleting g add) o) (concat chain_progs) ->
+       ~ In g (outs chain_progs)))
+  /\ events (run [repeat (tick 0) 6; repeat (tick 1) 20] (repeat 0 6 ++ repeat 1 20) (init 5 chain_progs))
+     = [ESet 1 7%N; ESet 0 3%N; ESet 2 7%N; ESet 3 17%N; ESet 4 17%N].
+Proof.
+  split; [|vm_compute; reflexivity].
+  change (outs chain_progs) with [2; 4]. split; [|split].
+  - repeat constructor; simpl; intuition discriminate.
+  - simpl. intros f v H Hin.
+    destruct H as [H|[H|[H|[H|[]]]]]; try discriminate; inversion H; subst;
+      destruct Hin as [E|[E|[]]]; discriminate.
+  - simpl. intros f g add o H Hin.
+    destruct H as [H|[H|[H|[H|[]]]]]; try discriminate; inversion H; subst;
+      destruct Hin as [E|[E|[]]]; discriminate.
+Qed.
